@@ -159,7 +159,11 @@ PROPS = {
         "note": "Trusted: Lean kernel; axioms propext, Classical.choice, Quot.sound; regexps restricted to the family the driver implements; rendering (BalanceReport.table, Table) is shared by "
                 "model and specification (its numeric/width properties are C17's subject); cobra flag parsing.",
         "rule": "lifecycle-generated journals (incl. a tenth with one lifecycle mutation, so rejected journals are compared too) x flag vectors over --from/--to/--last/interval/--diff/"
-                "--close/--account/--commodity/-m level[:suffix][,regex] (level 0 included)/--remap/-a/--csv. class = (outcome, flag signature, size bucket).",
+                "--close/--account/--commodity/-m level[:suffix][,regex] (level 0 included)/--remap/-a/--csv. class = (outcome, flag signature, size bucket). "
+                "Stream baltext: the journal as TEXT spread over a main file and 0-5 included files (chunks or interleaved, include trees with sub-directories), in four of five cases with one fault in one "
+                "directive of any kind, first/last/anywhere in the main or an included file: parses but must be rejected by the conversion to the model (impossible or non-ASCII-digit date, account without an "
+                "account type or a $macro, non-ASCII-digit amount or price, @accrue ending before its start / with a bad date or account), or a syntax error, an unreadable include, an include cycle; the real "
+                "command against the Lean parser + FromSyntax + pipeline model and against the ledger specification on the parsed text, and, whenever it exits 0, against the ledger of all directives written.",
         "assumptions": ["unvalued reports only (valued ones: C01/C03)"],
     },
     "C01": {
